@@ -184,8 +184,13 @@ def abs_parts(info, x):
 
 def gen_groups(rng, n):
     groups = []
-    for gi in range(n):
+    # a fixed battery first: every kind of wrong parameter set on every kind of model
+    battery = [(k, mu) for k in ('gauss', 'lorentz', 'pvoigt', 'poly', 'comp') for mu in ('missing', 'extra', 'wrong-prefix')]
+    for gi in range(n + len(battery)):
         r = rng.random()
+        forced = battery[gi] if gi < len(battery) else None
+        if forced:
+            r = 0.9
         ux, uy = rng.choice(XUNITS), rng.choice(YUNITS)
         xdt = rng.choice(['float64', 'float64', 'float64', 'float32', 'int64'])
         # integer x: widths >= 10 so that rounding x to integers keeps |x - loc| / scale moderate (the exact
@@ -203,6 +208,11 @@ def gen_groups(rng, n):
         elif r >= 0.88:
             mutate = rng.choice(['missing', 'extra', 'wrong-prefix', 'loc-unit', 'scale-unit', 'loc-dim',
                                  'amp-unit', 'overlap', 'degree0', 'y-mismatch'])
+        if forced:
+            mutate = forced[1]
+            m = gen_leaf(rng, forced[0]) if forced[0] != 'comp' else \
+                {'kind': 'comp', 'prefix': rng.choice(PREFIXES), 'via': rng.choice(['ctor', 'add']),
+                 'left': gen_leaf(rng, 'poly', 'b_'), 'right': gen_leaf(rng, rng.choice(['gauss', 'lorentz', 'pvoigt']), 'p_')}
         if mutate == 'overlap':
             p = rng.choice(PREFIXES)
             k = rng.choice(['gauss', 'lorentz', 'pvoigt'])
@@ -221,7 +231,7 @@ def gen_groups(rng, n):
             groups.append({'id': gi, 'what': 'construct', 'model': m, 'params': {}, 'x': None, 'info': [], 'mutate': mutate})
             continue
         params, info = gen_params(rng, m, ux, uy, center, width)
-        zs = rng.sample(ZS, 6)
+        zs = rng.sample(ZS, 4 if n <= 200 else 6)
         xs = [center + z * width for z in zs]
         if xdt == 'int64':
             xs = [float(max(-2 ** 40, min(2 ** 40, round(v)))) for v in xs]
@@ -230,9 +240,10 @@ def gen_groups(rng, n):
         if mutate == 'missing':
             del params[rng.choice(names)]
         elif mutate == 'extra':
-            params[rng.choice(['zz', 'scale', 'q_amplitude', names[0] + '_'])] = var([1.0], [])
-            if len(params) == len(names):
-                mutate = None
+            extra = rng.choice(['zz', 'scale', 'q_amplitude', names[0] + '_'])
+            if extra in params:
+                extra = 'zz'
+            params[extra] = var([1.0], [])
         elif mutate == 'wrong-prefix':
             nm = rng.choice(names)
             params['w' + nm] = params.pop(nm)
@@ -332,7 +343,7 @@ def strip(g):
 
 def correspondence(ctx):
     rng = random.Random(ctx.seed)
-    n = 180 if ctx.tier == "quick" else 3000
+    n = 150 if ctx.tier == "quick" else 3000
     groups = gen_groups(rng, n)
     res = ctx.run_impl('c16_impl.py', {'groups': [strip(g) for g in groups]})
     terms, descs = [], []
@@ -387,7 +398,28 @@ def correspondence(ctx):
 # ------------------------------------------------------------------ search on the implementation
 def _val(r, k=0):
     v = r['result']['values'][k]
+    if isinstance(v, str):
+        return float(v)          # 'nan' / 'inf' / '-inf'
     return float(Fraction(int(v[0]), int(v[1])))
+
+
+def leggauss(n):
+    """Gauss-Legendre nodes and weights on [-1, 1] (Newton iteration on P_n)"""
+    xs, ws = [], []
+    for i in range(n):
+        x = math.cos(math.pi * (i + 0.75) / (n + 0.5))
+        for _ in range(100):
+            p0, p1 = 1.0, x
+            for k in range(2, n + 1):
+                p0, p1 = p1, ((2 * k - 1) * x * p1 - (k - 1) * p0) / k
+            dp = n * (x * p1 - p0) / (x * x - 1)
+            dx = p1 / dp
+            x -= dx
+            if abs(dx) < 1e-16:
+                break
+        xs.append(x)
+        ws.append(2 / ((1 - x * x) * dp * dp))
+    return xs, ws
 
 
 def search(ctx, broken):
@@ -395,7 +427,6 @@ def search(ctx, broken):
     (python floats), symmetry, half maximum with the FWHM the model reports, normalisation by Gauss-Legendre
     quadrature (tan substitution, so the Lorentzian tails are included), polynomial = sum a_i x^i in exact
     rationals, composite = sum of parts, prefix independence, refusal of wrong parameter sets, result unit."""
-    import numpy as np
     rng = random.Random(ctx.seed + 16)
     found = []
 
@@ -403,7 +434,14 @@ def search(ctx, broken):
         ctx.violation(key, text, obj)
         found.append(obj)
 
-    nodes, weights = np.polynomial.legendre.leggauss(48)
+    nodes, weights = leggauss(48)
+    th = math.pi / 2 - 1e-3
+    edges = [-th + 2 * th * j / 32 for j in range(33)]
+    thetas, wts = [], []
+    for a, b in zip(edges[:-1], edges[1:]):
+        thetas += [(a + b) / 2 + (b - a) / 2 * t for t in nodes]
+        wts += [(b - a) / 2 * wq for wq in weights]
+    trials = []
     for trial in range(24):
         kind = ['gauss', 'lorentz', 'pvoigt'][trial % 3]
         ux, uy = rng.choice(XUNITS), rng.choice(YUNITS)
@@ -417,27 +455,38 @@ def search(ctx, broken):
                   p + 'scale': var([s], [[ux, 1]])}
         if kind == 'pvoigt':
             params[p + 'fraction'] = var([f], [])
-        # 1. fwhm the model reports
-        rf = ctx.run_impl('c16_impl.py', {'groups': [{'id': 0, 'what': 'fwhm', 'model': m, 'params': params, 'x': None}]})['groups'][0]
+        trials.append((kind, ux, uy, s, mu, A, f, p, m, params))
+    # 1. the fwhm each model reports
+    rfs = ctx.run_impl('c16_impl.py', {'groups': [{'id': i, 'what': 'fwhm', 'model': t[8], 'params': t[9], 'x': None}
+                                                   for i, t in enumerate(trials)]})['groups']
+    calls = []
+    for t, rf in zip(trials, rfs):
+        kind, ux, uy, s, mu, A, f, p, m, params = t
         if 'result' not in rf:
-            viol(f'{kind}:fwhm-raises', f'{kind}.fwhm raises {rf.get("error")}', {'model': m, 'params': params})
+            viol(f'{kind}:fwhm-raises', f'{kind}.fwhm raises {rf.get("error")}', {'group': {'model': m, 'params': params, 'what': 'fwhm'}})
+            calls.append(None)
             continue
         w = _val(rf)
-        # quadrature points: x = mu + s tan(theta), theta in 16 panels over (-th, th)
-        th = math.pi / 2 - 1e-3
-        edges = np.linspace(-th, th, 33)
-        thetas, wts = [], []
-        for a, b in zip(edges[:-1], edges[1:]):
-            thetas += list((a + b) / 2 + (b - a) / 2 * nodes)
-            wts += list((b - a) / 2 * weights)
         ds = [0.5 * s, 1.0 * s, 2.0 * s, 4.0 * s]
-        xs = [mu] + [mu + d for d in ds] + [mu - d for d in ds] + [mu + w / 2, mu - w / 2] + [mu + s * math.tan(t) for t in thetas]
-        g = {'id': 1, 'what': 'call', 'model': m, 'params': params, 'x': var(xs, [[ux, 1]], 'float64', 'x')}
-        r = ctx.run_impl('c16_impl.py', {'groups': [g]})['groups'][0]
+        # quadrature points: x = mu + s tan(theta), theta in 32 panels over (-th, th)
+        xs = [mu] + [mu + d for d in ds] + [mu - d for d in ds] + [mu + w / 2, mu - w / 2] + [mu + s * math.tan(tt) for tt in thetas]
+        calls.append({'id': len(calls), 'what': 'call', 'model': m, 'params': params, 'x': var(xs, [[ux, 1]], 'float64', 'x'),
+                      'w': w, 'ds': ds})
+    rcs = ctx.run_impl('c16_impl.py', {'groups': [strip(c) for c in calls if c is not None]})['groups']
+    rcs = iter(rcs)
+    for t, g in zip(trials, calls):
+        if g is None:
+            continue
+        r = next(rcs)
+        kind, ux, uy, s, mu, A, f, p, m, params = t
+        w, ds = g['w'], g['ds']
+        g = strip(g)
+        g['x'] = dict(g['x'], values=g['x']['values'][:11])     # the replay keeps the 11 probe points
         if 'result' not in r:
             viol(f'{kind}:call-raises', f'{kind} raises {r.get("error")} on valid parameters', {'group': g, 'error': r.get('error_text')})
             continue
-        vals = [_val(r, k) for k in range(len(xs))]
+        n_x = len(r['x']['values'])
+        vals = [_val(r, k) for k in range(n_x)]
         xst = [kcorr.fmt(v) for v in r['x']['values']]
         peak = vals[0]
         # closed form
@@ -457,7 +506,8 @@ def search(ctx, broken):
         # half maximum with the reported FWHM
         for k in (9, 10):
             if not abs(vals[k] - peak / 2) <= 1e-7 * abs(peak):
-                viol(f'{kind}:half-max', f'{kind}: f(loc +- fwhm/2) = {vals[k]} but f(loc)/2 = {peak / 2} with the reported fwhm = {w} (scale = {s}, fraction = {f})',
+                viol(f'{kind}:half-max', f'{kind}: f(loc +- fwhm/2) = {vals[k]} but f(loc)/2 = {peak / 2} with the reported fwhm = {w} (scale = {s}'
+                     + (f', fraction = {f})' if kind == 'pvoigt' else ')'),
                      {'group': g, 'fwhm': w, 'value_at_half_width': vals[k], 'half_peak': peak / 2})
                 break
         # normalisation: int f dx = int f(mu + s tan t) s / cos^2 t dt
@@ -501,10 +551,18 @@ def search(ctx, broken):
             {'id': 4, 'what': 'call', 'model': m, 'params': miss, 'x': X},
             {'id': 5, 'what': 'call', 'model': m, 'params': extra, 'x': X}]})['groups']
         if any('result' not in rr[i] for i in (0, 1, 2, 3)):
-            viol('object-layer:raises', 'a valid polynomial / composite call raised', {'groups': [g, comp], 'results': [x.get('error') for x in rr]})
+            errs = [x.get('error') for x in rr[:4]]
+            bad = [g, {'id': 1, 'what': 'call', 'model': pg, 'params': gp, 'x': X},
+                   {'id': 2, 'what': 'call', 'model': comp, 'params': cparams, 'x': X},
+                   {'id': 3, 'what': 'call', 'model': mq, 'params': qparams, 'x': X}][[i for i, e in enumerate(errs) if e][0]]
+            viol('object-layer:raises', f'a valid polynomial / composite call raised {errs} (degree {deg}, coefficient i in unit(y)/unit(x)^i)',
+                 {'group': strip(bad), 'errors': errs})
             continue
         for k, xv in enumerate(xs):
             exact = sum(Fraction(c) * Fraction(xv) ** i for i, c in enumerate(cs))
+            if isinstance(rr[0]['result']['values'][k], str):
+                viol('poly:sum', f'polynomial of degree {deg} returns {rr[0]["result"]["values"][k]} at x = {xv}', {'group': g, 'x': xv})
+                break
             got = Fraction(*[int(t) for t in rr[0]['result']['values'][k]])
             if abs(got - exact) > Fraction(1, 10 ** 12) * sum(abs(Fraction(c) * Fraction(xv) ** i) for i, c in enumerate(cs)):
                 viol('poly:sum', f'polynomial of degree {deg} with coefficients a_i = {cs} returns {float(got)} at x = {xv}; sum a_i x^i = {float(exact)}',
